@@ -166,10 +166,9 @@ Fixpoint sub (n : nat) (a b : hint) {struct n} : r3 :=
         | HAnnot mh vs =>
             match br with
             | HAnnot mh' vs' =>
-                (* self._metahint_wrapper > branch._metahint_wrapper: strict superhint *)
-                match and3 (sub n' mh' mh) (fun _ => not3 (eqh n' mh mh')) with
-                | RT => RF
-                | RF =>
+                (* not (self._metahint_wrapper <= branch._metahint_wrapper) *)
+                match sub n' mh mh' with
+                | RT =>
                     if negb (Nat.eqb (List.length vs) (List.length vs')) then RF
                     else r3_of (vexps_eqb vs vs')
                 | o => o
